@@ -48,7 +48,7 @@ def run(tier, seed):
             chk.violation('a program consisting of valid literals is not compiled: %s (%s)' % (p.res['outcome'], (p.res.get('msg') or '')[:200]),
                           {'program': p.name, 'source': p.src, 'args': p.args, 'outcome': p.res['outcome'], 'msg': p.res.get('msg'), 'tb': p.res.get('tb')})
     pairs = [(p, a) for p, a in zip(progs, asts) if p.ok]
-    st, kinds, cases = c01.run_conform(chk, pairs, 10 if quick else 12, 400 if quick else 3000, 'literals')
+    st, kinds, cases = c01.run_conform(chk, pairs, 10 if quick else 12, 1600 if quick else 9000, 'literals')
     cs = c06.c_stage(chk, [p for p, a in pairs][::(2 if quick else 1)], rng, 1, 'literal program')
     chk.coverage = {
         'states': st['states'] + cs['states'], 'transitions': st['transitions'] + cs['transitions'],
